@@ -5,6 +5,8 @@ import PdshVerif.Dsh.SignalsCancel
 import PdshVerif.Dsh.SignalsGuarded
 import PdshVerif.Dsh.SignalsFan
 import PdshVerif.Dsh.SignalsRank
+import PdshVerif.Dsh.SignalsBound
+import PdshVerif.Dsh.SignalsOnce
 import PdshVerif.Props.C03
 import PdshVerif.Props.C04
 
@@ -78,6 +80,10 @@ What is proved (for every `v`, `f`, `n`, every schedule and arrival time unless 
       cancellation point other than sigwait.  A batch ^C taken just before the request still ends in exit(1)
       (example at the end);
 * `exit_nonzero_on_abort`  whenever exit() was called its status is 1;
+* `fanout_respected_always`, `once_only_always`
+      C04 and C03 of *every* run of the signal-extended LTS, proved directly (no projection): with the `while` wait
+      construct threadcount ≤ fanout and at most `fanout` workers hold a connection, whatever signals arrive and
+      whatever ^Z cancels; every target is connected at most once;
 * `projects_to_fan`, `fanout_respected_without_cancel`, `once_only_without_cancel`
       projection onto the Fan LTS of C03/C04: every run in which `_cancel_pending_threads` does not run (no
       signal at all, or interrupts that only report, or an abort) is, with thd_mutex, `t[i].state`, the signals
@@ -540,6 +546,32 @@ theorem once_only_without_cancel {v : Variant} {g sw : Bool} {f n t0 : Nat} {b :
     (he : Exec (init v g sw f n b t0) ls s) (hl : ∀ l ∈ ls, l ≠ .s .lock) (i : Nat) :
     (ls.filterMap projL).count (.w i .connectBegin) ≤ 1 :=
   PdshVerif.Props.C03.once_only (projects_to_fan he hl) i
+
+/-! ## C04 and C03 of every run, cancellations included -/
+
+/-- C04 at full strength: `while` wait construct, every run — whatever signals arrive, whatever ^Z cancels —
+    threadcount never exceeds the fanout, and the workers that hold a connection (from the begin of rcmd_connect to
+    the end of rcmd_destroy) are at most `fanout` -/
+theorem fanout_respected_always {g sw : Bool} {f n t0 : Nat} {b : Bool} {ls : List Label} {s : St}
+    (he : Exec (init .whileWait g sw f n b t0) ls s) : s.tc ≤ f ∧ s.ws.countP connected ≤ f := by
+  have hb := binv_exec he
+  have hf : s.f = f := by
+    have := (exec_params he).2.1
+    simpa [init] using this
+  have hinv := inv_exec (inv_init .whileWait g sw f n b t0) he
+  have h1 : s.tc ≤ f := by rw [← hf]; exact hb.le
+  refine ⟨h1, ?_⟩
+  have h2 : s.ws.countP connected ≤ s.ws.countP counted :=
+    List.countP_mono_left (fun p _ h => connected_counted p h)
+  rw [← hinv.f.cnt] at h2
+  exact Nat.le_trans h2 h1
+
+/-- C03 at full strength: in every run, cancellations and aborts included, rcmd_connect is begun at most once per
+    target -/
+theorem once_only_always {v : Variant} {g sw : Bool} {f n t0 : Nat} {b : Bool} {ls : List Label} {s : St}
+    (he : Exec (init v g sw f n b t0) ls s) (i : Nat) : ls.count (.w i .connectBegin) ≤ 1 := by
+  have := oinv_exec (inv_init v g sw f n b t0) he (pc_init v g sw f n b t0) i
+  split at this <;> omega
 
 /-! ## non-vacuity: complete runs -/
 
